@@ -27,6 +27,7 @@ class CacheHooks(StdHooks):
     def __init__(self, interfere=None):
         StdHooks.__init__(self)
         self.published = set()  # record names pushed during the current operation
+        self.published_cells = {}
         self.in_op = None
         self.interfere = interfere  # callable(it, list_cell) executed once before the `interfere_at`-th CAS of the operation
         self.interfere_at = 1
@@ -42,6 +43,16 @@ class CacheHooks(StdHooks):
             return None
         if name.startswith('std::atomic<') and name.endswith('::load'):
             return it.copy_value(this_cell.value)
+        if name.startswith('std::atomic<') and name.endswith('::operator=') and len(args) == 1:
+            v = it.eval(args[0])
+            v = v.value if isinstance(v, Cell) else v
+            cp = it.copy_value(v)
+            if isinstance(cp, Obj):
+                cp.tag = this_cell.name
+            it.write(this_cell, cp, node)
+            return cp
+        if name.startswith('std::atomic<') and name.split('>::')[-1].startswith('operator ') and not args:
+            return it.copy_value(this_cell.value)  # implicit conversion = load
         if name.startswith('std::atomic<') and name.endswith('::store'):
             v = it.eval(args[0])
             cp = it.copy_value(v)
@@ -88,6 +99,16 @@ class CacheHooks(StdHooks):
             it.call(fdecl, this_cell, [it.lval(args[0]), nodeptr], node)
             if isinstance(nodeptr, Ptr) and nodeptr.region is not None:
                 self.published.add(nodeptr.off)
+                # every cell of the record (its link and, recursively, its payload) is now visible to other threads
+                stack = [nodeptr.region.cell(nodeptr.off)]
+                while stack:
+                    c = stack.pop()
+                    self.published_cells[id(c)] = 'entries[%s]' % nodeptr.off
+                    v = c.value
+                    if isinstance(v, Obj):
+                        for fk, fc in v.fields.items():
+                            self.published_cells[id(fc)] = 'entries[%s].%s' % (nodeptr.off, fk)
+                            stack.append(fc)
             return None
         return NotImplemented
 
@@ -98,6 +119,9 @@ class CacheHooks(StdHooks):
         if fn.endswith('::pop') or fn.endswith('::push'):
             return
         nm = cell.where()
+        if id(cell) in self.published_cells:
+            raise Violation19('F.rec.state', '%s of %s after the record was pushed onto a list (another thread may already have re-used it)'
+                              % (what, self.published_cells[id(cell)]), it.loc(node) if node else None)
         for idx in self.published:
             if nm.startswith('entries[%d]' % idx):
                 raise Violation19('F.rec.state', '%s of %s after the record was pushed onto a list (another thread may already have re-used it)' % (what, nm),
@@ -162,7 +186,10 @@ class Cache:
                 if idx in seq or not (0 <= idx < self.N):
                     raise Violation19('F.rec.conserve', 'list %s is cyclic or leaves the record array at %s' % (nm, idx), None)
                 seq.append(idx)
-                nxt = ent.cell(idx).value.fields['next'].value
+                rec = ent.cell(idx).value
+                nxt = rec.fields['next'].value if isinstance(rec, Obj) and 'next' in rec.fields else UNDEF
+                if nxt is UNDEF:
+                    raise Violation19('F.rec.conserve', 'the link of record %d (on list %s) was never initialised: its value is whatever the storage of the cache object held' % (idx, nm), None)
                 if isinstance(nxt, Ptr) and not nxt.is_null():
                     if nxt.region is not ent:
                         raise Violation19('F.rec.conserve', 'next pointer outside the record array', None)
@@ -181,6 +208,7 @@ class Cache:
     def op_insert(self, this, it, hooks, tag):
         hooks.in_op = 'insert'
         hooks.published = set()
+        hooks.published_cells = {}
         hooks.cas_count = 0
         try:
             r = it.call(self.f['insert'], this, [entry_obj(tag, self.entry_rec)])
@@ -191,6 +219,7 @@ class Cache:
     def op_get(self, this, it, hooks):
         hooks.in_op = 'get'
         hooks.published = set()
+        hooks.published_cells = {}
         hooks.cas_count = 0
         try:
             r = it.call(self.f['get'], this, [])
@@ -265,46 +294,42 @@ def is_cas(c):
 
 
 def cas_shape(cache, rep):
-    """syntactic: inside every loop retried on compare_exchange (free-function or member form), each assignment whose right side mentions the observed
-    head (`orig`) — version, successor index, node->next — is inside the loop body"""
+    """Observation only (never a verdict): the spelling of the retry loops.  Inside a loop retried on compare_exchange,
+    values derived from the observed head are normally recomputed in the loop and the version counter is advanced
+    there.  Whether a given spelling is right is decided behaviourally (rule F.cas.retry and the version check of
+    the exchange model), because equivalent code can be written in many ways (aggregate initialisation of the desired
+    head, helper functions, a single attempt without a loop); what is seen here is recorded in the evidence notes."""
     unit = cache.unit
     n = 0
     for nm in ('pop', 'push'):
-        f = cache.f[nm]
+        f = cache.f.get(nm)
+        if f is None:
+            rep.notes.append('F.cas.shape: no %s helper in this configuration' % nm)
+            continue
         loops = [x for x in walk(f['body']) if x.get('k') in ('DoStmt', 'WhileStmt', 'ForStmt') and any(is_cas(c) for c in walk(x))]
-        if not loops:
-            raise AnalysisBroken('no compare-exchange retry loop in %s' % f['name'])
         n += 1
-        loop = loops[-1]  # innermost loop containing the exchange (pre-order walk: the last one found)
-        # the expected-value variable of the CAS
+        if not loops:
+            rep.notes.append('F.cas.shape: %s has no loop around its compare-exchange (single attempt)' % nm)
+            continue
+        loop = loops[-1]
         cas = [c for c in walk(loop) if is_cas(c)][0]
         exp_arg = cas['args'][0] if cas.get('k') == 'CXXMemberCallExpr' else cas['args'][1]
         exp_var = None
         for x in walk(exp_arg):
             if x.get('k') == 'DeclRefExpr':
                 exp_var = x['id']
-        if exp_var is None:
-            raise AnalysisBroken('expected-value argument of the compare-exchange in %s is not a variable' % f['name'])
         inside = set(id(x) for x in walk(loop))
-        bad = None
-        bumped = False
+        outside = []
         for x in walk(f['body']):
-            if x.get('k') in ('BinaryOperator',) and x.get('op') == '=':
-                uses = any(y.get('k') == 'DeclRefExpr' and y.get('id') == exp_var for y in walk(x['c'][1]))
-                lhs_member = strip(x['c'][0])
-                if uses and id(x) not in inside:
-                    bad = (x, 'assignment derived from the observed head is outside the retry loop: after a failed exchange it would use a stale head')
-                if uses and lhs_member is not None and lhs_member.get('member') == 'counter' and id(x) in inside:
-                    bumped = True
-            if x.get('k') == 'VarDecl' and x.get('init') is not None and id(x) not in inside and x.get('id') != exp_var:
-                if any(y.get('k') == 'DeclRefExpr' and y.get('id') == exp_var for y in walk(x['init'])):
-                    bad = (x, 'variable initialised from the observed head outside the retry loop')
-        if bad is None and not bumped:
-            bad = (loop, 'the version counter is not advanced from the observed head inside the loop (ABA protection)')
-        if bad:
-            rep.fail('F.cas.shape', nm, unit.loc(bad[0]), 'everything derived from the observed head recomputed on each retry; version bumped', bad[1], f['name'])
-        else:
-            rep.ok('F.cas.shape')
+            if id(x) in inside or exp_var is None:
+                continue
+            if x.get('k') == 'BinaryOperator' and x.get('op') == '=' and any(y.get('k') == 'DeclRefExpr' and y.get('id') == exp_var for y in walk(x['c'][1])):
+                outside.append(unit.loc(x))
+            if x.get('k') == 'VarDecl' and x.get('init') is not None and x.get('id') != exp_var and \
+                    any(y.get('k') == 'DeclRefExpr' and y.get('id') == exp_var for y in walk(x['init'])):
+                outside.append(unit.loc(x))
+        rep.notes.append('F.cas.shape: %s retries on compare-exchange; values derived from the observed head outside the loop: %s'
+                         % (nm, ', '.join(outside) if outside else 'none'))
     return n
 
 
@@ -438,7 +463,6 @@ def run(db, rep, tier):
         rep.ok('F.stack.spec', n2)
     rep.floor('F.stack.spec', n1 + n2, 100)
     rep.sample('F.stack.spec', 'shared N=4: all %d sequences over {insert,fetch}; thread-local N=32: %d sequences from fills 0,1,31,32' % (n1, n2))
-    n = cas_shape(shared, rep)
-    rep.floor('F.cas.shape', n, 2)
+    cas_shape(shared, rep)
     if ok1:
         cas_interference(shared, rep, depth=3 if tier == 'thorough' else 1)
